@@ -79,4 +79,9 @@ CHECKS = {
         technique="runtime contracts (icontract post-conditions on encode_state_data: decode-back equality, same type, identifier dispatch; on copy_state_data: equality + aliasing walker over mutable objects and object cells) driven by per-pair value generators; (type, extension) pairs discovered by probing",
         text="Every (registered type, extension) pair that both writes and reads a sample is exercised with tens of thousands of seeded values from its documented domain (adversarial dictionary keys, non-finite floats, nested picklables, frames with mixed columns / missing values / empty / non-default index). Exploration.",
         note="Lossy renderings (csv/tsv/json/html of frames) excluded; values a non-default format cannot write are counted as unrepresentable."),
+    "C17": dict(
+        category=_EXPL, design_ref="DESIGN.md section 4, C17",
+        technique="(a) differential + raw-snapshot monitor over histories through read-only views (every mutator incl. openbin write modes and mount must raise the read-only error and change nothing; every read equals the underlying store's); (b) enforcing audit-hook path-boundary monitor + os.stat/lstat wrappers around every directory-store operation for exhaustive traversal keys, reached directly, through mounts and through resource queries, beside sentinel files",
+        text="(a) 8 store configurations x seeded histories, all mutators and reads per step; (b) all keys of depth <= 3/4 over {a, b.txt, ., .., '', __metadata__} with and without leading '/' plus absolute keys into the box x 13 operations x 4 routes, enumerated completely. Exploration (no symlinks).",
+        note="The hook blocks every mutating event outside the root (the attempt is the observation); stat/mkdir of ancestors of the root and reads of Python source files are not store I/O."),
 }
